@@ -7,7 +7,9 @@ PROJECTION = 'text (tolerant end-to-end with the default databases)'
 RULE = ('generated documents in which every comment, formula and discarded construct carries a unique marker word, placed '
         'at every nesting position (top level, inside mandatory and optional arguments, groups, list / unknown / center '
         'environments, after bare macros, as last token without newline; formulas as $..$, \\(..\\), $$..$$, \\[..\\], '
-        'equation / align* environments; discarded constructs \\label \\documentclass \\usepackage \\hspace \\cite \\ref '
+        'equation / align* environments; about one formula in eight has a body that renders to NOTHING - blank, a comment, a '
+        'discarded macro - and stands between two marker words: with-delimiters must still show its delimiters, verbatim its '
+        'source; discarded constructs \\label \\documentclass \\usepackage \\hspace \\cite \\ref '
         'and unknown macros with arguments), x 4 math modes x keep_comments x 6 whitespace policies x keep_braced_groups '
         '(model and real code) x fill_text (real code only). Non-trivial: the document has at least one comment and one '
         'formula.')
@@ -71,6 +73,7 @@ class Gen:
         self.comments = []      # (marker, visible_when_kept, in_math_id or None)
         self.maths = []         # (marker, source, open, close, display, visible)
         self.discards = []
+        self.emaths = []        # (marker before, marker after, source, open, close, visible, marker inside a discarded macro or None): formulas whose body renders to nothing
         self.nobr = 0           # inside an optional [...] argument: nothing containing ']' may be generated
 
     def mk(self, p):
@@ -88,6 +91,25 @@ class Gen:
         kind = r.choice(['$', '\\(', '$$', 'equation', 'align*', r.choice(EQUATION_ENVS)] + ([] if self.nobr else ['\\[']))
         body = m
         cm = None
+        if r.random() < 0.12:
+            # a formula whose body renders to NOTHING (blank, a comment, a discarded macro): it is still a formula --
+            # 'with-delimiters' keeps its delimiters, 'verbatim' its source; the markers stand around it, not in it
+            k2 = r.random()
+            dm = None
+            if k2 < 0.3:
+                body = r.choice([' ', '  ', '\n'])
+            elif k2 < 0.6:
+                body = self.comment(False, in_math=m).rstrip(' ').replace('\n\n', '\n')
+            else:
+                body = r.choice(['', ' ']) + self.discard() + r.choice(['', ' '])
+                dm = self.discards.pop()        # reproduced with the source under 'verbatim': judged with the formula
+            if kind in EQUATION_ENVS:
+                op, cl = '\\begin{%s}' % kind, '\\end{%s}' % kind
+            else:
+                op, cl = kind, {'$': '$', '\\(': '\\)', '$$': '$$', '\\[': '\\]'}[kind]
+            src = op + body + cl
+            self.emaths.append((m, m[:-1] + 'E', src, op, cl, visible, dm))
+            return m + ' ' + src + ' ' + m[:-1] + 'E'
         if r.random() < 0.25:
             body = m + ' ' + self.comment(False, in_math=m) + 'x'
         elif r.random() < 0.2:
@@ -204,7 +226,7 @@ def gen_cases(seed, tier):
         s = g.items(0, True)
         if rnd.random() < 0.2:
             s += g.comment(True, last=True)
-        meta = {'comments': g.comments, 'maths': g.maths, 'discards': g.discards}
+        meta = {'comments': g.comments, 'maths': g.maths, 'discards': g.discards, 'emaths': g.emaths}
         cases.append(_case(s, _opts(rnd), meta))
     # specifications declared through the public API (per-argument and chained changes of the parsing state): real code only
     r2 = random.Random(seed + 1201)
@@ -213,7 +235,7 @@ def gen_cases(seed, tier):
         s = g.items(0, True)
         if '\\weblink' not in s and '{derivation}' not in s and '\\mathrm' not in s and '\\textsc' not in s:
             continue
-        meta = {'comments': g.comments, 'maths': g.maths, 'discards': g.discards}
+        meta = {'comments': g.comments, 'maths': g.maths, 'discards': g.discards, 'emaths': g.emaths}
         cases.append(_case(s, _opts(r2), meta, custom=True))
     return cases
 
@@ -325,6 +347,21 @@ def oracle(c):
         else:
             if not present:
                 return ('formula-missing', {'marker': m})
+    for m, me, src, op, cl, visible, dm in meta.get('emaths', []):
+        if dm and mm != 'verbatim' and dm in out:
+            return ('discarded-construct-leaks', {'marker': dm})
+        i = out.find(m)
+        j = out.find(me, i + 1) if i >= 0 else -1
+        if not visible or i < 0 or j < 0:
+            continue
+        seg = out[i + len(m):j]
+        if mm == 'verbatim':
+            if squeeze(src) not in squeeze(seg):
+                return ('verbatim-formula-source-missing:empty-body', {'marker': m, 'source': src})
+        elif mm == 'with-delimiters':
+            a = seg.find(op)
+            if a < 0 or cl not in seg[a + len(op):]:
+                return ('formula-delimiters-missing:empty-body', {'marker': m, 'open': op, 'close': cl, 'between-markers': seg[:200]})
     for m in meta['discards']:
         if m in out:
             return ('discarded-construct-leaks', {'marker': m})
